@@ -23,6 +23,9 @@ Other(s) == IF s = "L" THEN "R" ELSE "L"
 KeyCols(cfg, s) == IF s = "L" THEN cfg.lkey ELSE cfg.rkey
 Width(cfg, s)   == IF s = "L" THEN cfg.lw ELSE cfg.rw
 KeyOfRow(cfg, s, row) == [i \in 1..Len(KeyCols(cfg, s)) |-> row[KeyCols(cfg, s)[i]]]
+KeyHasNull(key) == \E i \in 1..Len(key) : IsNullV(key[i])
+(* an equality is never true for NULL: two rows match iff their keys are equal and contain no NULL *)
+KeysMatch(cfg, l, r) == KeyOfRow(cfg, "L", l) = KeyOfRow(cfg, "R", r) /\ ~KeyHasNull(KeyOfRow(cfg, "L", l))
 NullRow(n) == [i \in 1..n |-> NullV]
 Glue(s, mine, theirs) == IF s = "L" THEN mine \o theirs ELSE theirs \o mine
 Pad(cfg, s, row) == Glue(s, row, NullRow(Width(cfg, Other(s))))
@@ -35,10 +38,10 @@ BagUnion(a, b) == IF DOMAIN b = {} THEN a
                   ELSE LET x == CHOOSE y \in DOMAIN b : TRUE IN BagUnion(BagPut(a, x, b[x]), FnRemove(b, x))
 Present(b) == {x \in DOMAIN b : b[x] > 0}
 JoinBag(cfg, LB, RB) ==
-  LET pairs  == {p \in Present(LB) \X Present(RB) : KeyOfRow(cfg, "L", p[1]) = KeyOfRow(cfg, "R", p[2])}
+  LET pairs  == {p \in Present(LB) \X Present(RB) : KeysMatch(cfg, p[1], p[2])}
       joined == [x \in {p[1] \o p[2] : p \in pairs} |->
                    LB[SubSeq(x, 1, cfg.lw)] * RB[SubSeq(x, cfg.lw + 1, cfg.lw + cfg.rw)]]
-      lonely(s, B, O) == {x \in Present(B) : ~\E y \in Present(O) : KeyOfRow(cfg, s, x) = KeyOfRow(cfg, Other(s), y)}
+      lonely(s, B, O) == {x \in Present(B) : ~\E y \in Present(O) : IF s = "L" THEN KeysMatch(cfg, x, y) ELSE KeysMatch(cfg, y, x)}
       padL   == IF OuterOn(cfg, "L") THEN [x \in {Pad(cfg, "L", l) : l \in lonely("L", LB, RB)} |-> LB[SubSeq(x, 1, cfg.lw)]] ELSE <<>>
       padR   == IF OuterOn(cfg, "R") THEN [x \in {Pad(cfg, "R", r) : r \in lonely("R", RB, LB)} |-> RB[SubSeq(x, cfg.lw + 1, cfg.lw + cfg.rw)]] ELSE <<>>
   IN Norm(BagUnion(BagUnion(joined, padL), padR))
@@ -82,7 +85,9 @@ Receive(cfg, tree, s, rec, osr) ==
                 ELSE (IF first /\ OuterOn(cfg, Other(s)) THEN EmitRows(cfg, s, rec, other, match, "retractpad") ELSE <<>>)
                      \o inner
                      \o (IF last /\ OuterOn(cfg, Other(s)) THEN EmitRows(cfg, s, rec, other, match, "addpad") ELSE <<>>)
-  IN [tree |-> [tree EXCEPT ![s] = my2], out |-> out]
+  IN IF KeyHasNull(key)      \* never matches; on an outer side it only yields its own padded row
+     THEN [tree |-> tree, out |-> IF IsOuter(cfg) /\ OuterOn(cfg, s) THEN <<Rec(Pad(cfg, s, rec.v), rec.r, rec.t)>> ELSE <<>>]
+     ELSE [tree |-> [tree EXCEPT ![s] = my2], out |-> out]
 
 RECURSIVE ReceiveAll(_, _, _, _, _)
 ReceiveAll(cfg, tree, s, recs, osr) ==
